@@ -27,6 +27,8 @@ def evJson : Ev → Json
   | .ret a b => jstrs ["ret", a, b]
   | .act a => jstrs ["act", a]
   | .deact a => jstrs ["deact", a]
+  | .note a => jstrs ["note", a]
+  | .noteSide => jstrs ["noteside"]
   | .open_ k => jstrs ["open", k]
   | .else_ => jstrs ["else"]
   | .end_ => jstrs ["end"]
@@ -35,7 +37,8 @@ def handle (op : String) (j : Json) : Option Json :=
   match op with
   | "sd.gen" =>
       let m := moduleOf ((obj? j "module").getD Json.null)
-      match generate m 100000 (strD j "app") (strD j "ep") with
+      let bb := (arrD j "blackboxes").map (fun b => (strD b "key", strD b "comment"))
+      match generate m 100000 (strD j "app") (strD j "ep") bb with
       | none => some (Json.mkObj [("diverges", Json.bool true)])
       | some (.error (.missingApp a)) => some (Json.mkObj [("error", Json.str "missing-app"), ("what", Json.str a)])
       | some (.error (.missingEp a e)) => some (Json.mkObj [("error", Json.str "missing-endpoint"), ("what", Json.str (a ++ " <- " ++ e))])
